@@ -314,3 +314,22 @@ Theorem c04_write_back_orient_ok_optimiser_moves : forall before c rh s ops,
 Proof. exact write_back_orient_ok_closed. Qed.
 Print Assumptions c04_write_back_orient_ok.
 Print Assumptions c04_write_back_orient_ok_optimiser_moves.
+
+(* ======================================================================================== *)
+(* C04 for the CLOSED model of DetailedPlacer::legalize (cell order computed by CellOrder.cell_order, see Properties_C01.v) *)
+From Coq Require Import QArith.
+Require Import CV.CellOrder CV.CellOrderProofs.
+Local Open Scope Z_scope.
+(* [F on the domain of c04_legalize_circuit_orient_ok] orientation clause for the closed model *)
+Theorem c04_legalize_real_orient_ok : forall p c c' rh,
+  std_design c rh -> (forall r, In r (rows c) -> ro r <> oUNKNOWN) -> row_orient_by_y c ->
+  legalize_real p c = LegOk c' -> orient_ok c c'.
+Proof. exact legalize_real_orient_ok. Qed.
+
+Theorem c04_legalize_real_rowhigh_orient_ok : forall p c c' rh,
+  rowhigh_design c rh -> (forall r, In r (rows c) -> ro r <> oUNKNOWN) ->
+  legalize_real p c = LegOk c' -> orient_ok c c'.
+Proof. exact legalize_real_rowhigh_orient_ok. Qed.
+
+Print Assumptions c04_legalize_real_orient_ok.
+Print Assumptions c04_legalize_real_rowhigh_orient_ok.
